@@ -576,6 +576,7 @@ func C13(p *core.Program, r *core.Report) {
 	// ---- (6) the per-bundle state is initialised once
 	checkNotifyOnce(p, r)
 	checkDuplicateLeavesRecord(p, r)
+	checkPeerIdentityStable(p, r)
 
 	// ---- (7) one dispatching per bundle at a time
 	checkDispatchExclusive(p, r)
